@@ -161,13 +161,13 @@ impl RngCore for CoinRng {
 const IP_A: IpAddr = IpAddr::V4(Ipv4Addr::new(192, 168, 0, 1));
 const IP_B: IpAddr = IpAddr::V4(Ipv4Addr::new(192, 168, 0, 2));
 
-fn two_host_world() -> World {
+fn two_host_world(cap: usize) -> World {
     let cfg = crate::Config {
         duration: std::time::Duration::from_secs(10),
         tick: std::time::Duration::from_millis(1),
         epoch: std::time::SystemTime::UNIX_EPOCH,
         ephemeral_ports: 49152..=49155,
-        tcp_capacity: 2,
+        tcp_capacity: cap,
         udp_capacity: 2,
         enable_tokio_io: false,
         random_node_order: false,
@@ -191,7 +191,7 @@ fn two_host_world() -> World {
 
 /// peer: 0 = remote host, 1 = same host through its own address, 2 = same host through 127.0.0.1
 fn teardown(peer: u8, unread: bool, shutdown_first: bool, read_half_first: bool) -> (usize, usize) {
-    let mut world = two_host_world();
+    let mut world = two_host_world(2);
     let pair = match peer {
         0 => SocketPair::new(SocketAddr::new(IP_A, 49152), SocketAddr::new(IP_B, 80)),
         1 => SocketPair::new(SocketAddr::new(IP_A, 49152), SocketAddr::new(IP_A, 80)),
@@ -253,31 +253,127 @@ fn teardown(peer: u8, unread: bool, shutdown_first: bool, read_half_first: bool)
 // (unread data towards a REMOTE peer is not an instance: the RST path followed by the sibling half's
 // drop - which finds the stream gone, builds an `io::Error` and drops it - had no verdict in 15 min
 // in either drop order; the same-host instances cover the unread-data path)
-// @verif id=C12 tier=quick role=stream_teardown timeout=900 mem=12 desc=same-host(127.0.0.1),unread-data,write-side-shut-down-first
+// @verif id=C12 tier=quick role=stream_teardown timeout=900 mem=12 vt=1 desc=same-host(127.0.0.1),unread-data,write-side-shut-down-first
 crate::verif_proof! { unwind = 8;
 fn c12_dropped_loopback_stream_is_released_after_shutdown() {
     let (_f, _r) = teardown(2, true, true, true);
     kani::cover!(true, "released");
 }
 }
-// @verif id=C12 tier=quick role=stream_teardown timeout=900 mem=12 desc=remote-peer,graceful,write-half-dropped-first
+// @verif id=C12 tier=quick role=stream_teardown timeout=900 mem=12 vt=1 desc=remote-peer,graceful,write-half-dropped-first
 crate::verif_proof! { unwind = 8;
 fn c12_dropped_stream_graceful_close_sends_one_fin() {
     let (f, r) = teardown(0, false, false, false);
     kani::cover!(f == 1 && r == 0, "one FIN");
 }
 }
-// @verif id=C12 tier=thorough role=stream_teardown timeout=900 mem=12 desc=same-host(own-address),unread-data,write-half-dropped-first
+// @verif id=C12 tier=thorough role=stream_teardown timeout=900 mem=12 vt=1 desc=same-host(own-address),unread-data,write-half-dropped-first
 crate::verif_proof! { unwind = 8;
 fn c12_dropped_same_host_stream_is_released() {
     let (_f, _r) = teardown(1, true, false, false);
     kani::cover!(true, "released");
 }
 }
-// @verif id=C12 tier=thorough role=stream_teardown timeout=900 mem=12 desc=remote-peer,shutdown-then-drop,graceful
+// @verif id=C12 tier=thorough role=stream_teardown timeout=900 mem=12 vt=1 desc=remote-peer,shutdown-then-drop,graceful
 crate::verif_proof! { unwind = 8;
 fn c12_dropped_stream_after_shutdown_sends_no_second_fin() {
     let (f, r) = teardown(0, false, true, true);
     kani::cover!(f == 1 && r == 0, "only the shutdown's FIN");
+}
+}
+
+// ---------------------------------------------------------------------------------------------------
+// C02, writer side ("a writer that outruns the reader is blocked or told WouldBlock, never silently
+// discarded"): the REAL `WriteHalf::poll_write_priv` inside `World::enter` on the two-host World.
+// Every accepted write puts exactly one data segment on the link, in write order, with growing
+// sequence numbers and the written bytes unaltered; a write without credit parks and puts NOTHING on
+// the link; a credit handed back by the reader lets the next write through.
+/// `N` writes of 2 symbolic bytes each on a stream with `CAP` credits; after write number
+/// `release_after` (if < N) the reader gives one credit back.
+fn write_schedule<const CAP: usize, const N: usize>(release_after: usize) -> (usize, usize) {
+    let mut world = two_host_world(CAP);
+    let pair = SocketPair::new(SocketAddr::new(IP_A, 49152), SocketAddr::new(IP_B, 80));
+    let (rx, bidi) = world.hosts.get_mut(&IP_A).unwrap().tcp.new_stream(pair);
+    world.current = Some(IP_A);
+    let stream = TcpStream::new(pair, rx, bidi);
+    let TcpStream { read_half, write_half } = stream;
+    let data: [[u8; 2]; N] = kani::any();
+    let cell = RefCell::new(world);
+    let mut accepted = [false; N];
+    let mut n_acc = 0;
+    let mut blocked = 0;
+    World::enter(&cell, || {
+        let mut cx = std::task::Context::from_waker(std::task::Waker::noop());
+        let mut i = 0;
+        while i < N {
+            let r = write_half.poll_write_priv(&mut cx, &data[i]);
+            match &r {
+                Poll::Ready(Ok(n)) => {
+                    assert!(*n == 2, "an accepted write takes the whole buffer");
+                    accepted[i] = true;
+                    n_acc += 1;
+                }
+                Poll::Ready(Err(_)) => panic!("a live stream does not fail a write"),
+                Poll::Pending => blocked += 1,
+            }
+            std::mem::forget(r);
+            if i == release_after {
+                read_half.flow_control.release();
+            }
+            i += 1;
+        }
+    });
+    let mut world = cell.into_inner();
+    // every accepted write, and nothing else, is on the wire exactly once, in order, unaltered
+    let mut seen = 0;
+    let mut last_seq = 0u64;
+    for link in world.topology.iter_mut() {
+        for sent in link {
+            match sent.protocol() {
+                Protocol::Tcp(Segment::Data(seq, bytes)) => {
+                    assert!(*seq > last_seq || seen == 0, "sequence numbers grow");
+                    last_seq = *seq;
+                    // the seen-th accepted write
+                    let mut k = 0;
+                    let mut idx = 0;
+                    let mut found = false;
+                    while k < N {
+                        if accepted[k] {
+                            if idx == seen {
+                                assert!(bytes.len() == 2 && bytes[0] == data[k][0] && bytes[1] == data[k][1], "payload unaltered, in write order");
+                                found = true;
+                            }
+                            idx += 1;
+                        }
+                        k += 1;
+                    }
+                    assert!(found);
+                    seen += 1;
+                }
+                _ => panic!("only data segments were sent"),
+            }
+        }
+    }
+    assert!(seen == n_acc, "one segment per accepted write: nothing silently discarded, nothing duplicated");
+    assert!(n_acc + blocked == N);
+    std::mem::forget(world);
+    std::mem::forget(read_half);
+    std::mem::forget(write_half);
+    (n_acc, blocked)
+}
+// @verif id=C02 tier=quick role=write_half timeout=1800 mem=16 vt=1 desc=capacity=1,two-writes(second-blocked)
+crate::verif_proof! { unwind = 8;
+fn c02_write_without_credit_is_blocked_not_discarded() {
+    let (acc, blocked) = write_schedule::<1, 2>(9);
+    assert!(acc == 1 && blocked == 1, "the writer that outruns the reader is blocked, not discarded");
+    kani::cover!(blocked == 1, "second write blocked");
+}
+}
+// @verif id=C02 tier=thorough role=write_half timeout=2400 mem=24 vt=1 desc=capacity=1,three-writes,credit-returned-after-the-second
+crate::verif_proof! { unwind = 8;
+fn c02_write_resumes_after_the_reader_returns_a_credit() {
+    let (acc, blocked) = write_schedule::<1, 3>(1);
+    assert!(acc == 2 && blocked == 1);
+    kani::cover!(acc == 2, "first and third write on the wire, in order");
 }
 }
